@@ -16,10 +16,22 @@ Decided structurally:
   R5 once and ordered  env / ports / mounts live in ordered maps / sets of the command structs, buildpacks in a
                        Vec; each loop emits one option per element
 Not decided: Docker's / pack's own sub-parsing of option values (e.g. `=` inside --env values, `,` in mount paths).
+
+The obligations are stated on semantics, not on one spelling (rules/C17_helpers.py):
+  * argv = ordered contributions to the Command (`arg` / `args`, made directly, in private helpers or closures, row by
+    row for loops over literal tables, or through a Vec filled with push / extend and handed over whole); iterated
+    arguments are decomposed with the iterator algebra (flat_map, Option::into_iter, bool::then, flatten ...)
+  * forwarding = effects of the builder methods reached from start_container / build_internal with arguments in the
+    entry function's terms; "per element" = inside a loop (`for` or `for_each`) over the whole config collection,
+    reached in every iteration and passed on every path to the command invocation, handed the element itself
+  * app path = phi-free alternatives of the value given to PackBuildCommand::new with private helpers inlined
 """
-from .lib.cmdmodel import command_model, from_command_fns
-from .lib.guards import conditions
+from . import C17_helpers as H
+from .lib import iters
+from .lib.cmdmodel import from_command_fns
+from .lib.effects import Effects, guards_of
 from .lib.paths import strip
+from .lib.tables import lifted_args
 from .lib.value import vstr, walk
 
 # positional (non-option) elements that are allowed: (struct, field) -> reason
@@ -52,7 +64,7 @@ def run(ctx, rep):
     for ty, f in sorted(cmds.items()):
         rep.analysed(f)
         short = ty.split('::')[-1]
-        program, items = command_model(prog, sl, f)
+        program, items = H.argv_model(prog, sl, f)
         where = '%s:%d' % (f.file, f.line)
         rep.extra.setdefault('argv_models', {})[short] = [repr(it) for it in items]
         rep.check(program in ('docker', 'pack'), 'R1', short + '/program', where, 'program = "%s"' % program, 'program is not a constant: %s' % program)
@@ -109,94 +121,158 @@ def run(ctx, rep):
         fields = [x['name'] for x in adt['variants'][0]['fields']]
         missing = [x for x in fields if x not in used]
         rep.check(not missing, 'R2', short, where, 'all fields %s reach argv' % fields, 'fields %s of %s never reach the command line' % (missing, short))
-        # R5 (per loop)
+        # R5 (per loop; a collection handed over whole — `args(words)` — is the loop `for w in words { arg(w) }`)
+        ORDERED = ('std::collections::BTreeMap<', 'std::collections::BTreeSet<', 'std::vec::Vec<')
+        ftys = {x['name']: x['ty'] for x in adt['variants'][0]['fields']}
+        inner = lambda t: t[len('std::option::Option<'):-1] if t.startswith('std::option::Option<') else t
         for it in items:
             if it.loop:
-                fty = next(x['ty'] for x in adt['variants'][0]['fields'] if x['name'] == it.loop)
-                ordered = fty.startswith(('std::collections::BTreeMap<', 'std::collections::BTreeSet<', 'std::vec::Vec<'))
+                fty = ftys[it.loop]
+                ordered = inner(fty).startswith(ORDERED)
                 shape = len(it.elems) == 2 and it.elems[0][0] == 'const' and it.elems[0][1].startswith('--') and it.elems[1][0] == 'field' and it.elems[1][1] == it.loop
-                rep.check(ordered and shape, 'R5', '%s/%s' % (short, it.loop), it.call.where(), 'one %s per element of the ordered %s' % (it.elems[0][1] if it.elems else '?', fty.split('<')[0].split('::')[-1]),
+                word_list = len(it.elems) == 1 and it.elems[0][0] == 'field' and it.elems[0][1] == it.loop and (short, it.loop) in POSITIONAL
+                rep.check(ordered and (shape or word_list), 'R5', '%s/%s' % (short, it.loop), it.call.where(),
+                          'one %s per element of the ordered %s' % (it.elems[0][1] if shape else 'word', inner(fty).split('<')[0].split('::')[-1]),
                           'loop over %s (%s) emits %s' % (it.loop, fty, it.elems))
-    # docker exec command starts with the launcher constant
+            for e in it.elems:
+                if e[0] == 'field' and e[2] == 'splat':
+                    fty = ftys[e[1]]
+                    rep.check(inner(fty).startswith(ORDERED), 'R5', '%s/%s' % (short, e[1]), it.call.where(), 'the words of the ordered %s, in order' % inner(fty).split('<')[0].split('::')[-1],
+                              '%s (%s) is handed to the command line in an unspecified order' % (e[1], fty))
+    # docker exec command starts with the launcher constant (the words are read where they are written: lifted out
+    # of private helpers, first element of whatever iterable is handed over)
     ex_new = 'libcnb_test::docker::DockerExecCommand::new'
-    sites = [c for c in prog.callers().get(ex_new, []) if c.name == ex_new]
-    for i, c in enumerate(sites):
-        v = strip(sl.operand(c.fn, c.args[1]))
-        ok = v[0] == 'array' and v[1] and strip(v[1][0]) == ('const', 'launcher')
-        rep.check(ok, 'R1', 'DockerExecCommand/first-word#%d' % i, c.where(), 'exec command starts with the constant launcher binary', 'docker exec command starts with %s' % vstr(v)[:80])
+    sites = [c for c in prog.callers().get(ex_new, []) if c.name == ex_new and not c.indirect]
+    n = 0
+    for c in sites:
+        for top, site, vals in lifted_args(prog, sl, c, crate='libcnb_test'):
+            v = vals[1] if len(vals) > 1 else ('unknown', 'no command argument')
+            v = sl.inline_deep(v)
+            lit = H.literal_sequence(prog, sl, v)
+            al = [(x, None, False) for x in lit] if lit else iters.alts(sl, v)
+            ok = bool(al) and al[0][1] is None and not al[0][2] and strip(al[0][0]) == ('const', 'launcher')
+            rep.check(ok, 'R1', 'DockerExecCommand/first-word#%d' % n, site.where(), 'exec command starts with the constant launcher binary', 'docker exec command starts with %s' % vstr(strip(v))[:80])
+            n += 1
     rep.check(bool(sites), 'R1', 'DockerExecCommand/sites', '-', '%d construction site(s)' % len(sites), 'no DockerExecCommand construction found')
+    forwarding(ctx, rep)
+
+
+RUNC = 'libcnb_test::docker::DockerRunCommand::'
+PACKC = 'libcnb_test::pack::PackBuildCommand::'
+FNS = {'copy_app': 'libcnb_test::app::copy_app', 'package_crate_buildpack': 'libcnb_test::build::package_crate_buildpack',
+       'package_buildpack': 'libcnb_test::build::package_buildpack', 'run_command': 'libcnb_test::util::run_command'}
+
+
+def _vocab(prog):
+    voc = {}
+    for p in prog.fns:
+        if p.startswith(RUNC) and '::{' not in p[len(RUNC):]:
+            voc[p] = ('RUN:' + p[len(RUNC):], None)
+        if p.startswith(PACKC) and '::{' not in p[len(PACKC):]:
+            voc[p] = ('PACK:' + p[len(PACKC):], None)
+    for k, p in FNS.items():
+        voc[p] = ('FN:' + k, None)
+    return voc
+
+
+def _loop_of(E, sl, e, cfg, mapped=False):
+    """(loop context, config field) of the innermost loop of effect e that visits a whole config collection"""
+    found = None
+    for ctx in H.loop_contexts(E, e):
+        fld = H.whole_collection(sl, ctx[3], cfg, mapped)
+        if fld is not None:
+            found = (ctx, fld)
+    return found
+
+
+def _elementwise(E, sl, effs, cfg, fld, run, n_args):
+    """config.<fld> is forwarded element by element: a single call site, inside a loop over the whole collection,
+    reached in every iteration, passed on every execution that gets to the command invocation, and handed the
+    element (for pairs: key, value in this order)"""
+    if len(effs) != 1:
+        return False, '%d forwarding call(s)' % len(effs)
+    e = effs[0]
+    lo = _loop_of(E, sl, e, cfg)
+    if lo is None or lo[1] != fld:
+        return False, 'not inside a loop over the whole of config.%s (loops: %s)' % (fld, [vstr(c[3])[:60] if c[3] else None for c in H.loop_contexts(E, e)])
+    ctx = lo[0]
+    if len(H.loop_contexts(E, e)) != 1:
+        return False, 'nested loops around the forwarding call'
+    if not H.on_every_iteration(E, [e], ctx):
+        return False, 'some iteration over config.%s skips the forwarding call' % fld
+    if len(run) == 1 and not H.always_before(E, e, (ctx[0], ctx[2]), run[0]):
+        return False, 'the loop over config.%s is not passed on every path to the command invocation' % fld
+    got = [H.element_of(sl, a, cfg) for a in (e.args or ())[1:]]
+    want = [(fld, ())] if n_args == 1 else [(fld, (str(i),)) for i in range(n_args)]
+    if got != want:
+        return False, 'arguments %s are not the element%s of config.%s' % ([vstr(strip(a))[:50] for a in (e.args or ())[1:]], '' if n_args == 1 else "'s components in order", fld)
+    return True, 'every element of config.%s' % fld
+
+
+def forwarding(ctx, rep):
+    prog, sl = ctx.prog, ctx.slicer
+    E = Effects(prog, sl, vocab=_vocab(prog))
     # ---- R3 container -------------------------------------------------------------------------------------
     sc = prog.find_one(r"^libcnb_test::test_context::TestContext::<'_>::start_container$")
     rep.analysed(sc)
-    cfg = prog.adt('libcnb_test::container_config::ContainerConfig')
-    cfields = [x['name'] for x in cfg['variants'][0]['fields']]
-    rep.check(sorted(cfields) == sorted(CONTAINER_SETTERS), 'R3', 'ContainerConfig/fields', '%s:%s' % (cfg['file'], cfg['line']), 'forwarding table covers all %d fields' % len(cfields),
+    cadt = prog.adt('libcnb_test::container_config::ContainerConfig')
+    cfields = [x['name'] for x in cadt['variants'][0]['fields']]
+    ctys = {x['name']: x['ty'] for x in cadt['variants'][0]['fields']}
+    rep.check(sorted(cfields) == sorted(CONTAINER_SETTERS), 'R3', 'ContainerConfig/fields', '%s:%s' % (cadt['file'], cadt['line']), 'forwarding table covers all %d fields' % len(cfields),
               'ContainerConfig fields %s, forwarding table knows %s' % (cfields, sorted(CONTAINER_SETTERS)))
-    fns = [sc] + prog.closures_of(sc)
-    setter_calls = {}
-    for g in fns:
-        for c in g.calls:
-            if c.name and c.name.startswith('libcnb_test::docker::DockerRunCommand::'):
-                setter_calls.setdefault(c.name.split('::')[-1], []).append((g, c))
-
-    def cfg_field(v):
-        for x in walk(v):
-            if x[0] == 'field' and x[2] in cfields and strip(x[1])[0] == 'param' and strip(x[1])[1] == sc.path and strip(x[1])[2] == 1:
-                return x[2]
-        return None
+    cfg = H.Cfg(sc, 1, cfields)
+    effs = H.program_order([H.fix_mapping(E, e) for e in E.expand(sc, 'may') if e.call is not None])
+    by = {}
+    for e in effs:
+        by.setdefault(e.kind, []).append(e)
+    scw = '%s:%d' % (sc.file, sc.line)
+    run = by.get('FN:run_command', [])
     for fld, setter in CONTAINER_SETTERS.items():
-        cs = setter_calls.get(setter, [])
+        cs = by.get('RUN:' + setter, [])
         ok = len(cs) == 1
         why = '%d call(s) of %s' % (len(cs), setter)
-        if ok:
-            g, c = cs[0]
-            if g is sc:
-                src = cfg_field(sl.operand(sc, c.args[1]))
-                ok = src == fld
-                why = 'argument <- config.%s' % src
-            else:
-                # closure fed by config.<fld>.iter().for_each(..)
-                fe = [x for x in sc.calls if x.name == 'std::iter::Iterator::for_each' and any(y[0] == 'closure' and y[1] == g.path for y in walk(sl.operand(sc, x.args[1])))]
-                ok = len(fe) == 1 and cfg_field(sl.operand(sc, fe[0].args[0])) == fld
-                if ok:
-                    ad = [strip(sl.operand(g, a)) for a in c.args[1:]]
-                    ok = all(any(y[0] == 'param' and y[1] == g.path for y in walk(a)) for a in ad)
-                    if len(ad) == 2:
-                        ok = ok and [a[2] if a[0] == 'field' else None for a in ad] == ['0', '1']
-                why = 'for_each over config.%s -> %s(element)' % (fld, setter)
-        rep.check(ok, 'R3', 'container/' + fld, cs[0][1].where() if cs else '%s:%d' % (sc.file, sc.line), why, 'ContainerConfig.%s is not forwarded to DockerRunCommand::%s (%s)' % (fld, setter, why))
-    img = setter_calls.get('new', [])
-    ok = len(img) == 1 and strip(sl.operand(sc, img[0][1].args[0]))[0] == 'field' and strip(sl.operand(sc, img[0][1].args[0]))[2] == 'image_name'
-    rep.check(ok, 'R3', 'container/image', '%s:%d' % (sc.file, sc.line), 'runs the image built for this test', 'docker run does not use the built image')
-    det = setter_calls.get('detach', [])
-    rep.check(len(det) == 1 and strip(sl.operand(sc, det[0][1].args[1])) == ('const', True), 'R3', 'container/detach', '%s:%d' % (sc.file, sc.line), 'started detached', 'start_container is not detached')
+        if ok and ctys.get(fld, '').startswith('std::option::Option<'):
+            src = cfg.within(cs[0].args[1]) if len(cs[0].args) > 1 else None
+            # `if let Some(x) = &config.f` or `config.f.iter().for_each(..)`: no loop over anything else around it
+            ok = src == fld and all(H.whole_collection(sl, lc[3], cfg) == fld for lc in H.loop_contexts(E, cs[0]))
+            why = 'argument <- config.%s' % src
+        elif ok:
+            ok, why = _elementwise(E, sl, cs, cfg, fld, run, len(cs[0].args) - 1)
+            why = '%s -> %s(element)' % (why, setter)
+        rep.check(ok, 'R3', 'container/' + fld, cs[0].where() if cs else scw, why, 'ContainerConfig.%s is not forwarded to DockerRunCommand::%s (%s)' % (fld, setter, why))
+    img = by.get('RUN:new', [])
+    a0 = strip(img[0].args[0]) if len(img) == 1 and img[0].args else ('unknown',)
+    rep.check(a0[0] == 'field' and a0[2] == 'image_name', 'R3', 'container/image', scw, 'runs the image built for this test', 'docker run does not use the built image')
+    det = by.get('RUN:detach', [])
+    rep.check(len(det) == 1 and len(det[0].args) > 1 and strip(det[0].args[1]) == ('const', True), 'R3', 'container/detach', scw, 'started detached', 'start_container is not detached')
     # ---- R3 build ------------------------------------------------------------------------------------------
     bi = prog.find_one(r'^libcnb_test::test_runner::TestRunner::build_internal$')
     rep.analysed(bi)
     bw = '%s:%d' % (bi.file, bi.line)
     bcfg = prog.adt('libcnb_test::build_config::BuildConfig')
     bfields = [x['name'] for x in bcfg['variants'][0]['fields']]
-
-    def bcfg_field(v):
-        for x in walk(v):
-            if x[0] == 'field' and x[2] in bfields and strip(x[1])[0] == 'param' and strip(x[1])[1] == bi.path and strip(x[1])[2] == 2:
-                return x[2]
-        return None
+    cfg = H.Cfg(bi, 2, bfields)
+    effs = H.program_order([H.fix_mapping(E, e) for e in E.expand(bi, 'may') if e.call is not None])
+    by = {}
+    for e in effs:
+        by.setdefault(e.kind, []).append(e)
+    run = by.get('FN:run_command', [])
     seen = set()
-    newc = [c for c in bi.calls if c.name == 'libcnb_test::pack::PackBuildCommand::new']
-    ok = len(newc) == 1
+    COPY = FNS['copy_app']
+    is_copy = lambda v: any(x[0] == 'call' and x[1] == COPY for x in walk(v))
+    newc = by.get('PACK:new', [])
+    ok = len(newc) == 1 and len(newc[0].args) >= 2
     if ok:
-        a = [sl.operand(bi, x) for x in newc[0].args]
-        ok = bcfg_field(a[0]) == 'builder_name' and strip(a[0])[0] == 'field'
+        a = newc[0].args
+        ok = cfg.exact(a[0]) == 'builder_name'
         seen.add('builder_name')
-        # app path: phi(temporary copy | fixture)
-        pv = strip(a[1])
-        alts = pv[1] if pv[0] == 'phi' else (pv,)
+        # app path: the temporary copy | the fixture, wherever the choice is made (inline block, private helper)
+        pv = sl.inline_deep(a[1], keep=(COPY,))
         kinds = set()
-        for alt in alts:
-            if any(x[0] == 'call' and x[1] == 'libcnb_test::app::copy_app' for x in walk(alt)):
+        for alt in H.alternatives(pv, opaque=(COPY,)):
+            if is_copy(alt):
                 kinds.add('copy')
-            elif bcfg_field(alt) == 'app_dir':
+            elif cfg.within(alt) == 'app_dir':
                 kinds.add('fixture')
             else:
                 kinds.add('other:' + vstr(alt)[:40])
@@ -204,57 +280,81 @@ def run(ctx, rep):
         seen.add('app_dir')
     rep.check(ok, 'R3', 'build/builder_name', bw, 'builder <- config.builder_name', 'PackBuildCommand::new is not given config.builder_name')
     # preprocessor
-    pp = [c for c in bi.calls if c.decl in ('std::ops::Fn::call', 'std::ops::FnMut::call_mut', 'std::ops::FnOnce::call_once') and bcfg_field(sl.operand(bi, c.args[0])) == 'app_dir_preprocessor']
+    pp = [e for e in by.get('CALLBACK', []) if e.args and cfg.within(e.args[0]) == 'app_dir_preprocessor']
     ok = len(pp) == 1
     if ok:
-        av = sl.operand(bi, pp[0].args[1])
-        ok = any(x[0] == 'call' and x[1] == 'libcnb_test::app::copy_app' for x in walk(av)) and any(x[0] == 'call' and x[1] == 'libcnb_test::app::AppDir::as_path' for x in walk(av))
-        cds = [cd for cd in conditions(bi, pp[0].bb, sl) if cd.kind == 'variant' and cd.outcome == frozenset({'Some'}) and bcfg_field(cd.subject) == 'app_dir_preprocessor']
-        ok = ok and bool(cds)
+        av = ('tuple', tuple(pp[0].args[1:]))
+        ok = is_copy(av) and any(x[0] == 'call' and x[1] in ('libcnb_test::app::AppDir::as_path', 'tempfile::TempDir::path') for x in walk(av))
+        # nothing of the fixture outside the copy_app(..) call itself
+        ok = ok and all(cfg.within(alt) is None for alt in [_without(av, COPY)])
+        gs = [1 for cd, views, subj in guards_of(E, pp[0]) if cd.kind == 'variant' and cd.outcome == frozenset({'Some'}) and subj is not None and cfg.exact(subj) == 'app_dir_preprocessor']
+        ok = ok and bool(gs)
         seen.add('app_dir_preprocessor')
     rep.check(ok, 'R4', 'preprocessor-arg', pp[0].where() if pp else bw, 'preprocessor(<path of the temporary copy>) when configured', 'the preprocessor is not invoked on the temporary copy of the app')
-    cp = [c for c in bi.calls if c.name == 'libcnb_test::app::copy_app']
-    rep.check(len(cp) == 1 and bcfg_field(sl.operand(bi, cp[0].args[0])) == 'app_dir', 'R4', 'copy-source', bw, 'the copy is made from the configured fixture', 'copy_app source is not config.app_dir')
+    cp = by.get('FN:copy_app', [])
+    rep.check(len(cp) == 1 and bool(cp[0].args) and cfg.within(cp[0].args[0]) == 'app_dir', 'R4', 'copy-source', bw, 'the copy is made from the configured fixture', 'copy_app source is not config.app_dir')
     # env
-    envc = [(g, c) for g in prog.closures_of(bi) for c in g.calls if c.name == 'libcnb_test::pack::PackBuildCommand::env']
-    ok = len(envc) == 1
-    if ok:
-        g, c = envc[0]
-        fe = [x for x in bi.calls if x.name == 'std::iter::Iterator::for_each' and any(y[0] == 'closure' and y[1] == g.path for y in walk(sl.operand(bi, x.args[1])))]
-        ok = len(fe) == 1 and bcfg_field(sl.operand(bi, fe[0].args[0])) == 'env'
-        ad = [strip(sl.operand(g, a)) for a in c.args[1:]]
-        ok = ok and [a[2] if a[0] == 'field' else None for a in ad] == ['0', '1']
-        seen.add('env')
-    rep.check(ok, 'R3', 'build/env', bw, 'every env pair -> pack_command.env(key, value)', 'BuildConfig.env is not forwarded pair by pair')
-    # buildpacks
-    bp = [c for c in bi.calls if c.name == 'libcnb_test::pack::PackBuildCommand::buildpack']
-    arms = {}
-    for c in bp:
-        cds = [cd for cd in conditions(bi, c.bb, sl) if cd.kind == 'variant' and cd.enum == 'libcnb_test::build_config::BuildpackReference']
-        if cds and len(cds[-1].outcome) == 1 and bi.in_loop(c.bb):
-            subj_ok = any(x[0] == 'call' and x[1] == 'std::iter::Iterator::next' and bcfg_field(x[2][0]) == 'buildpacks' for x in walk(cds[-1].subject))
-            # unconditional inside its arm: no further boolean guard decides whether the reference is forwarded
-            subj_ok = subj_ok and not [cd for cd in conditions(bi, c.bb, sl) if cd.kind == 'bool' and bi.dominates(cds[-1].target, cd.sw_bb)]
-            arms[next(iter(cds[-1].outcome))] = subj_ok
+    envc = by.get('PACK:env', [])
+    ok, why = _elementwise(E, sl, envc, cfg, 'env', run, 2)
+    seen.add('env')
+    rep.check(ok, 'R3', 'build/env', bw, 'every env pair -> pack_command.env(key, value)', 'BuildConfig.env is not forwarded pair by pair (%s)' % why)
+    # buildpacks: every iteration over config.buildpacks hands one reference to pack_command.buildpack(..), whatever
+    # the reference kind (the calls may sit in the arms of a match or take the result of a resolving helper)
+    bp = by.get('PACK:buildpack', [])
     variants = sorted(v['name'] for v in prog.adt('libcnb_test::build_config::BuildpackReference')['variants'])
-    rep.check(sorted(arms) == variants and all(arms.values()), 'R3', 'build/buildpacks', bw, 'one pack_command.buildpack(..) per configured reference, for every reference kind, in iteration order',
-              'buildpack forwarding arms %s vs reference kinds %s' % (arms, variants))
+    why = '%d forwarding call(s)' % len(bp)
+    ok = bool(bp)
+    if ok:
+        los = [_loop_of(E, sl, e, cfg, mapped=True) for e in bp]
+        ok = all(lo is not None and lo[1] == 'buildpacks' for lo in los) and len({(lo[0][0], lo[0][1], id(lo[0][2])) for lo in los if lo}) == 1 \
+            and all(len(H.loop_contexts(E, e)) == 1 for e in bp)
+        why = 'calls are not all inside one loop over the whole of config.buildpacks'
+        if ok:
+            ok = H.on_every_iteration(E, bp, los[0][0])
+            why = 'some iteration over config.buildpacks forwards nothing (kinds %s)' % variants
+        if ok and len(run) == 1:
+            ok = H.always_before(E, bp[0], (los[0][0][0], los[0][0][2]), run[0])
+            why = 'the loop over config.buildpacks is not passed on every path to the pack invocation'
+    rep.check(ok, 'R3', 'build/buildpacks', bw, 'one pack_command.buildpack(..) per configured reference, for every reference kind, in iteration order',
+              'buildpack forwarding: %s' % why)
     seen.add('buildpacks')
-    for callee in ('libcnb_test::build::package_crate_buildpack', 'libcnb_test::build::package_buildpack'):
-        cs = [c for c in bi.calls if c.name == callee]
+    for k in ('package_crate_buildpack', 'package_buildpack'):
+        cs = by.get('FN:' + k, [])
         ok = len(cs) == 1
         if ok:
-            vals = [bcfg_field(sl.operand(bi, a)) for a in cs[0].args]
+            vals = [cfg.exact(a) for a in cs[0].args]
             ok = 'cargo_profile' in vals and 'target_triple' in vals
-        rep.check(ok, 'R3', 'build/packaging/' + callee.split('::')[-1], bw, 'packaging uses config.cargo_profile and config.target_triple', '%s is not given the configured profile / target' % callee)
+        rep.check(ok, 'R3', 'build/packaging/' + k, bw, 'packaging uses config.cargo_profile and config.target_triple', '%s is not given the configured profile / target' % FNS[k])
     seen.update({'cargo_profile', 'target_triple'})
-    epr = any(cd.kind == 'variant' and cd.enum == 'libcnb_test::build_config::PackResult' and bcfg_field(cd.subject) == 'expected_pack_result'
-              for b in range(len(bi.blocks)) for cd in conditions(bi, b, sl)) if False else None
-    # cheaper: a discriminant read of config.expected_pack_result exists
-    epr = any(s[0] == '=' and s[2]['r'] == 'discr' and s[2].get('enum') == 'libcnb_test::build_config::PackResult' for b in bi.blocks for s in b['s'])
+    # the verdict: a decision on the PackResult value of config.expected_pack_result, taken in build_internal or in a
+    # private helper it hands the field to
+    epr = False
+    PR = 'libcnb_test::build_config::PackResult'
+    for g in prog.reach([bi]).values():
+        if g.crate != 'libcnb_test' or g.derived or epr:
+            continue
+        tested = []
+        for b in g.blocks:
+            for s in b['s']:
+                if s[0] == '=' and s[2]['r'] == 'discr' and s[2].get('enum') == PR:      # match / matches! / if let
+                    tested.append(sl.place(g, s[2]['p']))
+        for c in g.calls:
+            if not c.indirect and c.decl in ('std::cmp::PartialEq::eq', 'std::cmp::PartialEq::ne') and (c.full or '').startswith('<%s as ' % PR):   # ==, !=
+                tested.extend(sl.operand(g, a) for a in c.args)
+        for v in tested:
+            if not epr and any(cfg.within(x) == 'expected_pack_result' for x in H.lift_to(prog, sl, bi, v, share=E)):
+                epr = True
     rep.check(epr, 'R3', 'build/expected_pack_result', bw, 'verdict depends on config.expected_pack_result', 'expected_pack_result is not consulted')
     seen.add('expected_pack_result')
     rep.check(sorted(seen) == sorted(bfields), 'R3', 'BuildConfig/fields', '%s:%s' % (bcfg['file'], bcfg['line']), 'all %d BuildConfig fields are consumed' % len(bfields),
               'BuildConfig fields %s, consumed %s' % (sorted(bfields), sorted(seen)))
-    runs = [c for c in bi.calls if c.name == 'libcnb_test::util::run_command']
-    rep.check(len(runs) == 1 and not bi.in_loop(runs[0].bb), 'R3', 'build/one-pack-invocation', bw, 'exactly one pack build invocation', '%d pack invocations' % len(runs))
+    rep.check(len(run) == 1 and not H.loop_contexts(E, run[0]), 'R3', 'build/one-pack-invocation', bw, 'exactly one pack build invocation', '%d pack invocations' % len(run))
+
+
+def _without(v, name):
+    """v with calls to `name` replaced by a marker"""
+    if not isinstance(v, tuple) or not v:
+        return v
+    if v[0] == 'call' and v[1] == name:
+        return ('unknown', 'cut')
+    return tuple(_without(x, name) if isinstance(x, tuple) else x for x in v)
